@@ -62,6 +62,9 @@ def eval_tt(tt, c, X, Y, body, head, red, W=None):
         if o == "y": return Y
         if o == "neg": return -B(t["a"])
         if o == "scal": return 2.5 * B(t["a"])
+        if o == "sscal":
+            u = B(t["a"])
+            return u * u.sum()
         if o == "adds": return B(t["a"]) + 1.5
         if o == "matvec": return A @ B(t["a"])
         if o == "mprod": return B(t["a"]).mprod(c.Q, 0)
@@ -145,6 +148,9 @@ def eval_dense(c, xl, yl, body, head, red, wl=None):
         if o == "y": return Yd
         if o == "neg": return -B(t["a"])
         if o == "scal": return 2.5 * B(t["a"])
+        if o == "sscal":
+            u = B(t["a"])
+            return u * u.sum()
         if o == "adds": return B(t["a"]) + 1.5
         if o == "matvec": return (Ad.reshape(n, n) @ B(t["a"]).reshape(-1)).reshape(N)
         if o == "mprod": return torch.tensordot(c.Q, B(t["a"]), dims=([1], [0]))
